@@ -31,7 +31,8 @@ theorem nLive_poll_loading (v : Option Val) (l : List Aw) (i : Nat) :
   | cons a as ih =>
     cases i with
     | zero =>
-      cases hk : a.kind <;> cases hd : a.done <;> simp [modifyAt, nLive, List.filter_cons, pollAw, hk, hd]
+      cases hk : a.kind <;> cases hd : a.done <;> cases hb : a.aborted <;>
+        simp [modifyAt, nLive, List.filter_cons, pollAw, hk, hd, hb]
     | succ i =>
       simp only [modifyAt, nLive, List.filter_cons] at ih ⊢
       split <;> simp [ih]
@@ -44,19 +45,62 @@ theorem nLive_poll (ld : Bool) (v : Option Val) (l : List Aw) (i : Nat) :
   | cons a as ih =>
     cases i with
     | zero =>
-      cases ld <;> cases hk : a.kind <;> cases hd : a.done <;>
-        simp [modifyAt, nLive, pollAw, handleDrop, hk, hd]
+      cases ld <;> cases hk : a.kind <;> cases hd : a.done <;> cases hb : a.aborted <;>
+        simp [modifyAt, nLive, pollAw, handleDrop, hk, hd, hb]
     | succ i =>
       have := ih i
       simp only [modifyAt, nLive, List.filter_cons, List.getElem?_cons_succ] at this ⊢
       split <;> simp_all <;> omega
+
+/-- every awaiter under the boundary has resumed or has been dropped with its reader -/
+def sawsGone (l : List Aw) : Prop := ∀ a ∈ l, a.kind = .saw → a.done = false → a.aborted = true
+
+theorem sawsGone_append {l m : List Aw} (h : sawsGone l) (hm : sawsGone m) : sawsGone (l ++ m) := by
+  intro a ha
+  rcases List.mem_append.mp ha with ha | ha
+  · exact h a ha
+  · exact hm a ha
+
+theorem sawsGone_wake {l : List Aw} (h : sawsGone l) : sawsGone (l.map wakeAw) := by
+  intro a ha
+  rcases List.mem_map.mp ha with ⟨b, hb, rfl⟩
+  have := h b hb
+  unfold wakeAw; split <;> simpa using this
+
+theorem sawsGone_poll {l : List Aw} (h : sawsGone l) (ld : Bool) (v : Option Val) (i : Nat) :
+    sawsGone (modifyAt (pollAw ld v) l i) := by
+  intro a ha
+  rcases mem_modifyAt ha with ha | ⟨b, hb, rfl⟩
+  · exact h a ha
+  · have := h b hb
+    unfold pollAw; (repeat' split) <;> simp_all
+
+theorem sawsGone_drop (l : List Aw) : sawsGone (l.map dropAw) := by
+  intro a ha
+  rcases List.mem_map.mp ha with ⟨b, _, rfl⟩
+  unfold dropAw; (repeat' split) <;> simp_all
+
+theorem sawPolls_gone {l : List Aw} (h : sawsGone l) (i : Nat) : sawPolls l[i]? = 0 := by
+  unfold sawPolls
+  cases hi : l[i]? with
+  | none => rfl
+  | some a =>
+    have ha : a ∈ l := List.mem_of_getElem? hi
+    have := h a ha
+    simp only
+    split
+    · rename_i hc
+      have := this hc.1 hc.2.1
+      simp [hc.2.2] at this
+    · rfl
 
 structure SInv (s : State) : Prop where
   /-- the boundary's task list = unresolved reader tasks + task ids held by the loop -/
   p1 : s.pending = nLive s.aws + s.idsHeld
   p2 : s.pc ≠ .fetching → s.idsHeld = 0
   p3 : s.pc = .fetching → (s.coveredCur = true ↔ 0 < s.idsHeld)
-  p4 : s.readSince = true ↔ 0 < s.susp
+  /-- no reader under the boundary: nothing is registered, held or waited for on its behalf -/
+  p4 : s.noReader = true → s.pending = 0 ∧ s.susp = 0 ∧ s.idsHeld = 0 ∧ s.readSince = false ∧ sawsGone s.aws
   p5 : s.pc = .fetching → s.msetDuring = false → s.loading = true
   p6 : s.pc = .fetching → s.msetDuring = false → s.readSince = true → 0 < nLive s.aws
 
@@ -68,18 +112,19 @@ theorem SInv.init (c : Cfg) : SInv (init c) := by
 /-- `t` agrees with `s` on everything `SInv` mentions -/
 def SameSusp (s t : State) : Prop :=
   t.pending = s.pending ∧ t.aws = s.aws ∧ t.idsHeld = s.idsHeld ∧ t.pc = s.pc ∧ t.coveredCur = s.coveredCur ∧
-  t.readSince = s.readSince ∧ t.susp = s.susp ∧ t.msetDuring = s.msetDuring ∧ t.loading = s.loading
+  t.readSince = s.readSince ∧ t.susp = s.susp ∧ t.msetDuring = s.msetDuring ∧ t.loading = s.loading ∧
+  t.noReader = s.noReader
 
-theorem SameSusp.refl (s : State) : SameSusp s s := ⟨rfl, rfl, rfl, rfl, rfl, rfl, rfl, rfl, rfl⟩
+theorem SameSusp.refl (s : State) : SameSusp s s := ⟨rfl, rfl, rfl, rfl, rfl, rfl, rfl, rfl, rfl, rfl⟩
 
 theorem SameSusp.trans {a b c : State} (h1 : SameSusp a b) (h2 : SameSusp b c) : SameSusp a c := by
-  obtain ⟨a1, a2, a3, a4, a5, a6, a7, a8, a9⟩ := h1
-  obtain ⟨b1, b2, b3, b4, b5, b6, b7, b8, b9⟩ := h2
+  obtain ⟨a1, a2, a3, a4, a5, a6, a7, a8, a9, a10⟩ := h1
+  obtain ⟨b1, b2, b3, b4, b5, b6, b7, b8, b9, b10⟩ := h2
   exact ⟨b1.trans a1, b2.trans a2, b3.trans a3, b4.trans a4, b5.trans a5, b6.trans a6, b7.trans a7,
-    b8.trans a8, b9.trans a9⟩
+    b8.trans a8, b9.trans a9, b10.trans a10⟩
 
 theorem SInv.of_same {s t : State} (h : SInv s) (e : SameSusp s t) : SInv t := by
-  obtain ⟨e1, e2, e3, e4, e5, e6, e7, e8, e9⟩ := e
+  obtain ⟨e1, e2, e3, e4, e5, e6, e7, e8, e9, e10⟩ := e
   obtain ⟨p1, p2, p3, p4, p5, p6⟩ := h
   constructor <;> simp_all
 
@@ -93,7 +138,7 @@ theorem mMarkDirty_susp (s : State) : SameSusp s (mMarkDirty s) := by
 theorem setSrc_susp (s : State) (i : Nat) (v : Val) : SameSusp s (setSrc s i v) := by
   unfold setSrc
   split
-  · have h0 : SameSusp s { s with src := setAt s.src i v } := ⟨rfl, rfl, rfl, rfl, rfl, rfl, rfl, rfl, rfl⟩
+  · have h0 : SameSusp s { s with src := setAt s.src i v } := ⟨rfl, rfl, rfl, rfl, rfl, rfl, rfl, rfl, rfl, rfl⟩
     have fin : ∀ u : State, SameSusp s u → SameSusp s (if u.mRan = true then mMarkDirty u else u) := by
       intro u hu
       split
@@ -113,7 +158,7 @@ theorem setSrc_susp (s : State) (i : Nat) (v : Val) : SameSusp s (setSrc s i v) 
 theorem refetch_susp (s : State) : SameSusp s (refetch s) := by
   unfold refetch
   split
-  · exact SameSusp.trans (b := { s with rc := s.rc + 1 }) ⟨rfl, rfl, rfl, rfl, rfl, rfl, rfl, rfl, rfl⟩
+  · exact SameSusp.trans (b := { s with rc := s.rc + 1 }) ⟨rfl, rfl, rfl, rfl, rfl, rfl, rfl, rfl, rfl, rfl⟩
       (smMarkDirty_susp _)
   · exact dMarkDirty_susp s
 
@@ -128,6 +173,7 @@ theorem notifySubs_susp (s : State) : (notifySubs s).susp = s.susp := by ns_fram
 theorem notifySubs_readSince (s : State) : (notifySubs s).readSince = s.readSince := by ns_frame
 theorem notifySubs_coveredCur (s : State) : (notifySubs s).coveredCur = s.coveredCur := by ns_frame
 theorem notifySubs_msetDuring (s : State) : (notifySubs s).msetDuring = s.msetDuring := by ns_frame
+theorem notifySubs_noReader (s : State) : (notifySubs s).noReader = s.noReader := by ns_frame
 
 /-- `notify_subs` on a state that is not (or no longer) fetching, or after a manual write -/
 theorem SInv.notifySubs {s : State} (h : SInv s) (hm : s.pc = .fetching → s.msetDuring = true) :
@@ -135,7 +181,7 @@ theorem SInv.notifySubs {s : State} (h : SInv s) (hm : s.pc = .fetching → s.ms
   obtain ⟨p1, p2, p3, p4, p5, p6⟩ := h
   constructor <;>
     simp only [notifySubs_pending, notifySubs_idsHeld, notifySubs_susp, notifySubs_readSince,
-      notifySubs_coveredCur, notifySubs_msetDuring, notifySubs_pc, notifySubs_aws, notifySubs_loading,
+      notifySubs_coveredCur, notifySubs_msetDuring, notifySubs_noReader, notifySubs_pc, notifySubs_aws, notifySubs_loading,
       nLive_wake] <;> simp_all
 
 theorem SInv.manualSet {s : State} (h : SInv s) (v : Val) : SInv (manualSet s v) := by
@@ -172,6 +218,26 @@ theorem SInv.bread {s : State} (h : SInv s) : SInv (bread s) := by
     · exact ⟨p1, p2, p3, p4, p5, p6⟩
   · constructor <;> simp_all [nLive_append] <;> omega
 
+theorem SInv.attachS {s : State} (h : SInv s) :
+    SInv { s with aws := s.aws ++ [{ kind := .saw }], noReader := false } := by
+  obtain ⟨p1, p2, p3, p4, p5, p6⟩ := h
+  have h0 : nLive [({ kind := .saw } : Aw)] = 0 := by simp [nLive]
+  constructor <;> simp_all [nLive_append]
+
+theorem nLive_drop (l : List Aw) : nLive (l.map dropAw) = 0 := by
+  unfold nLive
+  rw [List.length_eq_zero_iff, List.filter_eq_nil_iff]
+  intro a ha
+  rcases List.mem_map.mp ha with ⟨b, _, rfl⟩
+  unfold dropAw
+  (repeat' split) <;> simp_all
+
+/-- the readers are disposed: every handle and task id the boundary had given out on their behalf is back -/
+theorem SInv.bdrop {s : State} (h : SInv s) : SInv (bdrop s) := by
+  obtain ⟨p1, p2, p3, p4, p5, p6⟩ := h
+  unfold Async.bdrop
+  constructor <;> simp_all [nLive_drop]
+
 theorem SInv.pollA {s : State} (h : SInv s) (i : Nat) : SInv (pollA s i) := by
   obtain ⟨p1, p2, p3, p4, p5, p6⟩ := h
   have hp := nLive_poll s.loading s.value s.aws i
@@ -204,7 +270,7 @@ theorem SInv.dIter {s : State} (h : SInv s) (hpc : s.pc = .waiting) :
   rw [dIter_def]
   by_cases hc : s.chan = false
   · rw [if_pos hc]
-    exact ⟨h.of_same ⟨rfl, rfl, rfl, rfl, rfl, rfl, rfl, rfl, rfl⟩, fun hh => by simp at hh⟩
+    exact ⟨h.of_same ⟨rfl, rfl, rfl, rfl, rfl, rfl, rfl, rfl, rfl, rfl⟩, fun hh => by simp at hh⟩
   · rw [if_neg hc]
     by_cases hn : (chk s).2 = true ∨ (chk s).1.firstRun = true
     · rw [if_pos hn]
@@ -213,7 +279,7 @@ theorem SInv.dIter {s : State} (h : SInv s) (hpc : s.pc = .waiting) :
       · rw [if_pos hr]
         exact ⟨hf.applyResult.1, fun _ => hf.applyResult.2⟩
       · rw [if_neg hr]
-        exact ⟨hf.of_same ⟨rfl, rfl, rfl, rfl, rfl, rfl, rfl, rfl, rfl⟩, fun hh => by simp at hh⟩
+        exact ⟨hf.of_same ⟨rfl, rfl, rfl, rfl, rfl, rfl, rfl, rfl, rfl, rfl⟩, fun hh => by simp at hh⟩
     · rw [if_neg hn]
       have hc2 : (chk s).2 = false := by
         cases h2 : (chk s).2
@@ -223,13 +289,13 @@ theorem SInv.dIter {s : State} (h : SInv s) (hpc : s.pc = .waiting) :
       refine ⟨?_, fun _ => ?_⟩
       · show SInv (chk s).1
         rw [heq]
-        exact h.of_same ⟨rfl, rfl, rfl, rfl, rfl, rfl, rfl, rfl, rfl⟩
+        exact h.of_same ⟨rfl, rfl, rfl, rfl, rfl, rfl, rfl, rfl, rfl, rfl⟩
       · show (chk s).1.pc = .waiting
         rw [heq]; exact hpc
 
 theorem SInv.dLoop (n : Nat) {s : State} (h : SInv s) (hpc : s.pc = .waiting) : SInv (dLoop n s) := by
   induction n generalizing s with
-  | zero => exact h.of_same ⟨rfl, rfl, rfl, rfl, rfl, rfl, rfl, rfl, rfl⟩
+  | zero => exact h.of_same ⟨rfl, rfl, rfl, rfl, rfl, rfl, rfl, rfl, rfl, rfl⟩
   | succ n ih =>
     rw [Async.dLoop]
     obtain ⟨h1, h2⟩ := h.dIter hpc
@@ -249,39 +315,39 @@ theorem SInv.pollD {s : State} (h : SInv s) : SInv (pollD s) := by
     · rfl
   · rename_i hpc
     apply SInv.dLoop
-    · exact h.of_same ⟨rfl, rfl, rfl, rfl, rfl, rfl, rfl, rfl, rfl⟩
+    · exact h.of_same ⟨rfl, rfl, rfl, rfl, rfl, rfl, rfl, rfl, rfl, rfl⟩
     · exact hpc
   · split
-    · have h0 : SInv { s with dWoken := false } := h.of_same ⟨rfl, rfl, rfl, rfl, rfl, rfl, rfl, rfl, rfl⟩
+    · have h0 : SInv { s with dWoken := false } := h.of_same ⟨rfl, rfl, rfl, rfl, rfl, rfl, rfl, rfl, rfl, rfl⟩
       exact SInv.dLoop 3 h0.applyResult.1 h0.applyResult.2
-    · exact h.of_same ⟨rfl, rfl, rfl, rfl, rfl, rfl, rfl, rfl, rfl⟩
+    · exact h.of_same ⟨rfl, rfl, rfl, rfl, rfl, rfl, rfl, rfl, rfl, rfl⟩
 
 /-! ## the effect's task -/
 
 theorem effUpdate_susp (s : State) : SameSusp s (effUpdate s).1 := by
   unfold effUpdate
   split
-  · exact ⟨rfl, rfl, rfl, rfl, rfl, rfl, rfl, rfl, rfl⟩
+  · exact ⟨rfl, rfl, rfl, rfl, rfl, rfl, rfl, rfl, rfl, rfl⟩
   · have h := Frame.effAny (if s.eFirst = true then [] else effSources s.eff) s
-    exact ⟨h.pending, h.aws, h.idsHeld, h.pc, h.coveredCur, h.readSince, h.susp, h.msetDuring, h.loading⟩
+    exact ⟨h.pending, h.aws, h.idsHeld, h.pc, h.coveredCur, h.readSince, h.susp, h.msetDuring, h.loading, h.noReader⟩
 
 theorem runEffect_susp (s : State) : SameSusp s (runEffect s) := by
   obtain ⟨ms, mv, mr, x, h⟩ := runEffect_spec s
   rw [h]
-  exact ⟨rfl, rfl, rfl, rfl, rfl, rfl, rfl, rfl, rfl⟩
+  exact ⟨rfl, rfl, rfl, rfl, rfl, rfl, rfl, rfl, rfl, rfl⟩
 
 theorem eIter_susp (s : State) : SameSusp s (eIter s).1 := by
   rw [eIter_def]
   split
-  · exact ⟨rfl, rfl, rfl, rfl, rfl, rfl, rfl, rfl, rfl⟩
-  · have h1 : SameSusp s { s with eReg := true, eChan := false } := ⟨rfl, rfl, rfl, rfl, rfl, rfl, rfl, rfl, rfl⟩
+  · exact ⟨rfl, rfl, rfl, rfl, rfl, rfl, rfl, rfl, rfl, rfl⟩
+  · have h1 : SameSusp s { s with eReg := true, eChan := false } := ⟨rfl, rfl, rfl, rfl, rfl, rfl, rfl, rfl, rfl, rfl⟩
     split
     · exact (h1.trans (effUpdate_susp _)).trans (runEffect_susp _)
     · exact h1.trans (effUpdate_susp _)
 
 theorem eLoop_susp (n : Nat) (s : State) : SameSusp s (eLoop n s) := by
   induction n generalizing s with
-  | zero => exact ⟨rfl, rfl, rfl, rfl, rfl, rfl, rfl, rfl, rfl⟩
+  | zero => exact ⟨rfl, rfl, rfl, rfl, rfl, rfl, rfl, rfl, rfl, rfl⟩
   | succ n ih =>
     rw [eLoop]
     split
@@ -304,14 +370,16 @@ theorem SInv.step {s : State} (h : SInv s) (e : Event) : SInv (step s e) := by
       cases t
       · show SInv (pollT0 s)
         unfold pollT0
-        split <;> exact h.of_same ⟨rfl, rfl, rfl, rfl, rfl, rfl, rfl, rfl, rfl⟩
+        split <;> exact h.of_same ⟨rfl, rfl, rfl, rfl, rfl, rfl, rfl, rfl, rfl, rfl⟩
       · exact h.pollD
       · exact h.of_same (SameSusp.trans (b := { s with eWoken := false })
-          ⟨rfl, rfl, rfl, rfl, rfl, rfl, rfl, rfl, rfl⟩ (eLoop_susp 4 _))
+          ⟨rfl, rfl, rfl, rfl, rfl, rfl, rfl, rfl, rfl, rfl⟩ (eLoop_susp 4 _))
       · exact h.pollA _
     · exact h
   | get => exact h
   | bread => exact h.bread
+  | attachS => exact h.attachS
+  | bdrop => exact h.bdrop
 
 theorem SInv.foldl {s : State} (h : SInv s) (es : List Event) : SInv (es.foldl Async.step s) := by
   induction es generalizing s with
